@@ -9,6 +9,8 @@ PROPS = {
         'level': 'proof',
         'proof': [('contracts.lock', None)],
         'bounded': [],
+        'custom': [('contracts.lock', 'bounded_path_lock',
+                    'all nestings of <=3 (quick) / <=4 (thorough) reentrant path_lock requests of one thread on 2 real files')],
         'assumptions': [PY_SUBSET],
         'explanation': 'monitor invariants of lock.py for any number of threads (per process)',
     },
